@@ -154,10 +154,10 @@ def toTParam (x : Sexp) : Option TParamIn :=
 def toObj (x : Sexp) : Option Obj :=
   match x with
   | .list [.atom t, a] => if t = s%"notiface" then (getStr a).map .notIface else none
-  | .list [.atom t, g, tps, ms] =>
+  | .list [.atom t, g, tn, tps, ms] =>
     if t = s%"iface" then do
       pure (.iface (← (← tagged s%"methods" ms).mapM toMethod) (← getBool g)
-                   (← (← tagged s%"tparams" tps).mapM toTParam))
+                   (← (← tagged s%"tparams" tps).mapM toTParam) (← getBool tn))
     else none
   | _ => none
 
